@@ -65,6 +65,10 @@ type jRoute struct {
 	Valid    bool    `json:"valid"`    // oracle from the real graph (true when the route is not in it)
 	Svcs     []jNN   `json:"svcs"`     // oracle from the real graph (spec-derived when the route is not in it)
 	SpecSvcs []jNN   `json:"specSvcs"` // every Service named by a backendRef of the spec (judge side)
+	// oracle from the real graph: process{HTTP,GRPC}RouteRules was reached (L7Route.Attachable); true when not in it
+	RulesReached bool `json:"rulesReached"`
+	// names of the ExtensionRef filters of the rules that pass validateFilter (what the resolver is called with)
+	SfRefs []string `json:"sfRefs"`
 }
 
 type jTRef struct {
@@ -130,17 +134,29 @@ func specSvc(routeNS string, b gatewayv1.BackendObjectReference) (jNN, bool) {
 
 func nnOf(n types.NamespacedName) jNN { return jNN{n.Namespace, n.Name} }
 
+// extRefName: the name resolveExtRefFunc is called with for this filter, if validateFilter lets it through.
+func extRefName(typ string, ref *gatewayv1.LocalObjectReference) (string, bool) {
+	if typ != string(gatewayv1.HTTPRouteFilterExtensionRef) || ref == nil {
+		return "", false
+	}
+	if ref.Name == "" || ref.Group != ngfAPI.GroupName || ref.Kind != "SnippetsFilter" {
+		return "", false
+	}
+	return string(ref.Name), true
+}
+
 // Flatten renders objs for the Lean side. gr (may be nil) supplies the route oracle (valid, svcs).
 func Flatten(objs []client.Object, opts p.Options, gr *graph.Graph) jState {
 	st := jState{Cfg: jCfg{opts.Class, opts.Controller}, Classes: []jClass{}, Gws: []jGw{}, Routes: []jRoute{},
 		Policies: []jPolicy{}, Btps: []jBtp{}, Snippets: []jNN{}}
 	l7 := func(kind string, key graph.RouteKey, r *jRoute) {
-		r.Valid, r.Svcs = true, r.SpecSvcs
+		r.Valid, r.Svcs, r.RulesReached = true, r.SpecSvcs, true
 		if gr == nil {
 			return
 		}
 		if g, ok := gr.Routes[key]; ok {
 			r.Valid = g.Valid
+			r.RulesReached = g.Attachable
 			r.Svcs = []jNN{}
 			for _, rule := range g.Spec.Rules {
 				for _, b := range rule.BackendRefs {
@@ -159,8 +175,13 @@ func Flatten(objs []client.Object, opts p.Options, gr *graph.Graph) jState {
 			st.Gws = append(st.Gws, jGw{x.Namespace, x.Name, string(x.Spec.GatewayClassName),
 				int64(x.CreationTimestamp.Time.Sub(p.Epoch).Seconds()) + 1000000})
 		case *gatewayv1.HTTPRoute:
-			r := jRoute{Kind: "HTTPRoute", NS: x.Namespace, Name: x.Name, Parents: flatParents(x.Spec.ParentRefs), SpecSvcs: []jNN{}}
+			r := jRoute{Kind: "HTTPRoute", NS: x.Namespace, Name: x.Name, Parents: flatParents(x.Spec.ParentRefs), SpecSvcs: []jNN{}, SfRefs: []string{}}
 			for _, rule := range x.Spec.Rules {
+				for _, f := range rule.Filters {
+					if n, ok := extRefName(string(f.Type), f.ExtensionRef); ok {
+						r.SfRefs = append(r.SfRefs, n)
+					}
+				}
 				for _, b := range rule.BackendRefs {
 					if s, ok := specSvc(x.Namespace, b.BackendObjectReference); ok {
 						r.SpecSvcs = append(r.SpecSvcs, s)
@@ -170,8 +191,13 @@ func Flatten(objs []client.Object, opts p.Options, gr *graph.Graph) jState {
 			l7("HTTPRoute", graph.CreateRouteKey(x), &r)
 			st.Routes = append(st.Routes, r)
 		case *gatewayv1.GRPCRoute:
-			r := jRoute{Kind: "GRPCRoute", NS: x.Namespace, Name: x.Name, Parents: flatParents(x.Spec.ParentRefs), SpecSvcs: []jNN{}}
+			r := jRoute{Kind: "GRPCRoute", NS: x.Namespace, Name: x.Name, Parents: flatParents(x.Spec.ParentRefs), SpecSvcs: []jNN{}, SfRefs: []string{}}
 			for _, rule := range x.Spec.Rules {
+				for _, f := range rule.Filters {
+					if n, ok := extRefName(string(f.Type), f.ExtensionRef); ok {
+						r.SfRefs = append(r.SfRefs, n)
+					}
+				}
 				for _, b := range rule.BackendRefs {
 					if s, ok := specSvc(x.Namespace, b.BackendObjectReference); ok {
 						r.SpecSvcs = append(r.SpecSvcs, s)
@@ -181,7 +207,7 @@ func Flatten(objs []client.Object, opts p.Options, gr *graph.Graph) jState {
 			l7("GRPCRoute", graph.CreateRouteKey(x), &r)
 			st.Routes = append(st.Routes, r)
 		case *v1alpha2.TLSRoute:
-			r := jRoute{Kind: "TLSRoute", NS: x.Namespace, Name: x.Name, Parents: flatParents(x.Spec.ParentRefs), SpecSvcs: []jNN{}}
+			r := jRoute{Kind: "TLSRoute", NS: x.Namespace, Name: x.Name, Parents: flatParents(x.Spec.ParentRefs), SpecSvcs: []jNN{}, SfRefs: []string{}, RulesReached: true}
 			for _, rule := range x.Spec.Rules {
 				for _, b := range rule.BackendRefs {
 					if s, ok := specSvc(x.Namespace, b.BackendObjectReference); ok {
@@ -245,6 +271,7 @@ type jObs struct {
 	Policies []string `json:"policies"` // Kind/ns/name|group,kind,name;…
 	Svcs     []string `json:"svcs"`
 	Btps     []string `json:"btps"`    // IsReferenced && !Ignored
+	RefSnips []string `json:"refsnips"` // SnippetsFilters with Referenced == true
 	Targets  []string `json:"targets"` // UpdateRequest targets
 	Panic    string   `json:"panic,omitempty"`
 }
@@ -306,7 +333,7 @@ func RequestTargets(reqs []frameworkStatus.UpdateRequest) []string {
 }
 
 func Observe(out p.Output) jObs {
-	ob := jObs{IC: []string{}, IG: []string{}, Routes: []string{}, Policies: []string{}, Svcs: []string{}, Btps: []string{}, Targets: []string{}}
+	ob := jObs{IC: []string{}, IG: []string{}, Routes: []string{}, Policies: []string{}, Svcs: []string{}, Btps: []string{}, Targets: []string{}, RefSnips: []string{}}
 	if out.Panic != "" {
 		ob.Panic = p.PanicSite(out.Panic)
 		return ob
@@ -358,8 +385,13 @@ func Observe(out p.Output) jObs {
 			ob.Btps = append(ob.Btps, nnStr(k))
 		}
 	}
+	for k, sf := range g.SnippetsFilters {
+		if sf.Referenced {
+			ob.RefSnips = append(ob.RefSnips, nnStr(k))
+		}
+	}
 	ob.Targets = RequestTargets(out.Requests)
-	for _, l := range [][]string{ob.IC, ob.IG, ob.Routes, ob.Policies, ob.Svcs, ob.Btps} {
+	for _, l := range [][]string{ob.IC, ob.IG, ob.Routes, ob.Policies, ob.Svcs, ob.Btps, ob.RefSnips} {
 		sort.Strings(l)
 	}
 	return ob
